@@ -485,3 +485,4 @@ def run(ctx, rep):
     # input_context cell of each Context constructor is a copy of self.input_context (shared with C12)
     from rules import c12 as _c12
     common.share(_c12, ctx, rep, {"C12-FRAME"}, key_suffixes=[".input_context"], floors={"C12-FRAME": 5})
+    common.clone_faithful(rep, lib)
